@@ -432,6 +432,7 @@ _dispatch_transform_from_utf16(dispatch_data_t data, int32_t byteOrder)
 		} else if (skip > 0) {
 			src = (uint16_t *)(((uint8_t *)src) + skip);
 			size -= skip;
+			offset += skip;
 			max = (size / 2);
 			skip = 0;
 		}
